@@ -1,4 +1,5 @@
-// Command child hosts the monitors; one sub-command per property.
+// Command childct hosts the monitors that must also compile with -tags constantTime
+// (the constant-time big-integer back-end): C02 scalars and the C18 transcript program.
 package main
 
 import (
@@ -7,10 +8,5 @@ import (
 )
 
 func register(id string, f func(r *mon.R)) { childmain.Register(id, f) }
-
-var (
-	flagGroups = childmain.Groups
-	flagMode   = childmain.Mode
-)
 
 func main() { childmain.Main() }
